@@ -33,9 +33,11 @@ def cmdLabelStats : P String := do
 def cmdWrapPred : P String := do
   let fitted ← bool; let rs ← bool
   let nq ← nat
-  let em ← many float nq
+  -- a wrapped estimator may itself return NaN (e.g. BayesianRidge on constant labels with weights): passed through
+  let nanF : Option Float → Float := fun x => match x with | some v => v | none => (0.0 : Float) / 0.0
+  let em := (← many optFloat nq).map nanF
   let hasEs ← bool
-  let es ← many float nq
+  let es := (← many optFloat nq).map nanF
   let ys ← listOf float
   let (m, s) := wrapperPredict Float.sqrt fitted em (if hasEs then some es else none) ys nq rs
   pure (showFloats m ++ " | " ++ (match s with | none => "none" | some l => showFloats l))
